@@ -5,7 +5,7 @@
   stdin: any number of transcripts, each
       == <name>
       geom ch=<n> frames=<F> mode=r|w|rw [seekable=0|1] [block=<B>] [pad=<n>] [bw=<bytes per frame>] [trunc=0|1]
-           [strict=0|1] [iofail=0|1] [lossless=s16,f32,…] [holezero=s16,…]
+           [strict=0|1] [iofail=0|1] [tail=0|1] [lossless=s16,f32,…] [holezero=s16,…]
       ref <ty> <hex items>          (0..4 lines: the sequential reference stream per caller type; a type without a line is unknown)
       rawref <hex bytes>            (optional: what a sequential sf_read_raw delivers)
       <op line> / <transcript line> pairs in the harness script language:
@@ -155,7 +155,7 @@ def geomOf (toks : List String) : Abs.Geom :=
   let hz := ((kvGet toks "holezero").getD "").splitOn ","
   { ch := kvNat toks "ch" 1, block := kvNat toks "block" 1, pad := kvNat toks "pad" 0, seekable := kvBool toks "seekable" true,
     bw := kvNat toks "bw" 0, canTrunc := kvBool toks "trunc" false, strictSeek := kvBool toks "strict" false,
-    ioMayFail := kvBool toks "iofail" false,
+    ioMayFail := kvBool toks "iofail" false, tailClean := kvBool toks "tail" false,
     lossless := fun ty => match ty with | .s16 => loss.contains "s16" | .s32 => loss.contains "s32" | .f32 => loss.contains "f32" | .f64 => loss.contains "f64",
     holeZero := fun ty => match ty with | .s16 => hz.contains "s16" | .s32 => hz.contains "s32" | .f32 => hz.contains "f32" | .f64 => hz.contains "f64",
     frames0 := kvNat toks "frames" 0, mode0 := modeOf ((kvGet toks "mode").getD "r") }
